@@ -66,6 +66,12 @@ def r3_const_uses(toks, const_names, self_is_bnum, log):
             # find the path head
             j = i - 2
             head = toks[j]
+            if head == '>>' and i >= 6 and toks[i - 6] == '<' and toks[i - 5] in BNUM_TYPES and toks[i - 4] == '<' and (i < 7 or toks[i - 7] != '::'):
+                # qualified form `< BUintD32 < M >> :: BITS` (rustc prints `>>` as one token)
+                out += ['(', ')']
+                log['R3'] = log.get('R3', 0) + 1
+                i += 1
+                continue
             if head == '>' and i >= 4 and toks[i - 4:i - 1] == ['<', 'Self', '>'] and (i < 5 or toks[i - 5] != '::'):
                 # qualified-self form `< Self > :: X` (as produced by `<$ty>::ONE` in macros)
                 j = i - 3
@@ -86,6 +92,10 @@ def r3_const_uses(toks, const_names, self_is_bnum, log):
                     j -= 1
                 head = toks[j]
             ok = head in BNUM_TYPES or (head == 'Self' and self_is_bnum)
+            # qualified form `< BUint < N >> :: X` (macro-generated code: `<$ty>::X`)
+            if head == '>>' and i >= 7 and toks[i - 4] == '<' and toks[i - 6] == '<' and toks[i - 5] in BNUM_TYPES:
+                j = i - 6
+                ok = True
             # `digit::u64::BITS`-style module consts are not rewritten (they stay consts)
             if ok and not (j >= 1 and toks[j - 1] == '::'):
                 out += ['(', ')']
@@ -284,3 +294,78 @@ def const_to_fn(const_toks, assoc, log):
     if assoc:
         return vis + ['const', 'fn', name, '(', ')', '->'] + ty, ['{'] + expr + ['}']
     return vis + ['exec', 'const', name, ':'] + ty, ['{'] + expr + ['}']
+
+
+def r15_rng(sig, body, impl, assoc_types, log):
+    """R15 (unit `random` only, entry option `r15`): the methods of
+    `impl<..> UniformSampler for UniformInt<T>` are emitted as inherent methods of `UniformInt<T>`,
+    because the trait (`rand::distributions::uniform::UniformSampler`) is external and the `rand`
+    crate is not available to single-file Verus.  Token-level, nothing else is touched:
+      (a) impl header: `impl <G> Trait for Ty`        -> `impl <G> Ty`
+      (b) `Self :: X` where `type X = T ;` is an associated type of that impl -> `T`
+          (inherent impls cannot declare associated types)
+      (c) `Trait :: f (` (call through the dropped trait, Self inferred)      -> `Self :: f (`
+      (d) `rng . gen ( )` (rng = the parameter of type `& mut R`, `R : Rng`)  -> `bn_any ( )`
+          (arbitrary-value oracle; the type is inferred from the context exactly as for `gen`)
+    -> (sig, body, new impl header string)"""
+    h = impl.split(' ')
+    assert h[0] == 'impl' and 'for' in h, impl
+    # generics of the impl
+    i = 1
+    if h[i] == '<':
+        d = 0
+        while True:
+            if h[i] == '<':
+                d += 1
+            elif h[i] == '>':
+                d -= 1
+                if d == 0:
+                    break
+            i += 1
+        i += 1
+    f = h.index('for')
+    trait = h[i:f]
+    if len(trait) != 1:
+        raise Unsupported('R15: trait with generic arguments: ' + impl)
+    trait = trait[0]
+    new_impl = ' '.join(h[:i] + h[f + 1:])
+    log['R15a'] = 1
+    amap = {}
+    for t in assoc_types:
+        tt = t.split(' ')
+        if tt[0] == 'type' and tt[2] == '=' and tt[-1] == ';':
+            amap[tt[1]] = tt[3:-1]
+    # name of the rng parameter: `name : & mut R` with `R : Rng` among the fn generics
+    rng_names = set()
+    for k in range(len(sig) - 4):
+        if sig[k + 1] == ':' and sig[k + 2] == '&' and sig[k + 3] == 'mut' and k + 4 < len(sig):
+            ty = sig[k + 4]
+            for q in range(len(sig) - 2):
+                if sig[q] == ty and sig[q + 1] == ':' and sig[q + 2] == 'Rng':
+                    rng_names.add(sig[k])
+
+    def rw(toks):
+        out = []
+        n = len(toks)
+        k = 0
+        while k < n:
+            t = toks[k]
+            if t == 'Self' and k + 2 < n and toks[k + 1] == '::' and toks[k + 2] in amap and not (k + 3 < n and toks[k + 3] == '::'):
+                out += amap[toks[k + 2]]
+                log['R15b'] = log.get('R15b', 0) + 1
+                k += 3
+                continue
+            if t == trait and k + 3 < n and toks[k + 1] == '::' and toks[k + 3] == '(' and (k == 0 or toks[k - 1] not in ('::', 'as', ':', '+')):
+                out.append('Self')
+                log['R15c'] = log.get('R15c', 0) + 1
+                k += 1
+                continue
+            if t in rng_names and toks[k + 1:k + 5] == ['.', 'gen', '(', ')']:
+                out += ['bn_any', '(', ')']
+                log['R15d'] = log.get('R15d', 0) + 1
+                k += 5
+                continue
+            out.append(t)
+            k += 1
+        return out
+    return rw(sig), rw(body), new_impl
